@@ -435,7 +435,11 @@ def run(chk):
     from .c01 import check_programs
     chk.rule('C01.P', 'shared with C01: whole parsed programs evaluated (E9r): a function statement binds a global function when it executes (not before, again under another body later), '
              'return ends the script or function, jumps stay inside their statement list', floor=150)
-    chk.guard('C01.P', check_programs, chk, 'C01.P', False)
+    programs_ok = chk.guard('C01.P', check_programs, chk, 'C01.P', False)
+    from .c09 import check_budget
+    chk.rule('C09.B', 'shared with C09: whole programs evaluated (E9r) under every statement limit - every statement of every statement list (script, functions called from statements and from '
+             'jump conditions, includes) is started and counted once', floor=150)
+    programs_ok = bool(chk.guard('C09.B', check_budget, chk)) and bool(programs_ok)
     chk.guard('C08.X', check_dispatch, chk)
     chk.guard('C08.E', check_step, chk)
     _pc_rule(chk)
@@ -448,7 +452,7 @@ def run(chk):
     chk.rule('C09.D', 'shared with C09: per-statement increment is a read-modify-write on the shared options object')
     chk.rule('C09.W', 'shared with C09: who writes the counter')
     step_ok = not any(f.rule.startswith('C08.') for f in chk.findings) and not any(u['rule'].startswith('C08.E') for u in chk.unrecognised)
-    c09.check_counter_shape(chk, step_ok, ('D', 'W'))
+    c09.check_counter_shape(chk, step_ok, ('D', 'W'), budget_ok=bool(programs_ok))
     # function statement + new invocation per call are C04.R / C04.F
     from .c04 import check_function_statement, check_frames
     chk.rule('C04.R', 'shared with C04: function statement binds a global callable')
